@@ -16,7 +16,7 @@ from harness import lexer_step as LS
 HNAME = "harness.respell"
 TRI = {'{': "??<", '}': "??>", '[': "??(", ']': "??)", '#': "??=", '^': "??'", '|': "??!", '~': "??-"}
 DI = {'{': "<%", '}': "%>", '[': "<:", ']': ":>", '#': "%:"}
-MODES = ("splice", "splice_tri", "splice_plain_then_tri", "splice_tri_then_plain", "tri", "di")
+MODES = ("splice", "splice_tri", "splice_plain_then_tri", "splice_tri_then_plain", "tri", "di", "tri_all", "di_all")
 
 
 # punctuator family: longer windows over the characters that take part in longest-match operator recognition and in
@@ -99,6 +99,41 @@ def analyse(chars, mode, out):
             # every character of a punctuator lexeme is an edit site (mixed spellings such as "|??!" for "||")
             for k in range(len(O.LEXEME_OF.get(t.type, " "))):
                 sites.append((ti, o + k, t))
+    if mode in ("tri_all", "di_all"):
+        # every respellable punctuator character of the window respelled at once (two operators sharing a spelled prefix,
+        # state kept between tokens)
+        table = TRI if mode == "tri_all" else DI
+        items, nrep = [], 0
+        for o in range(n):
+            c = chars[o]
+            hit = None
+            if any(ti_o <= o < ti_o + len(O.LEXEME_OF.get(base[ti].type, " ")) and base[ti].value is None
+                   for ti, ti_o in enumerate(offs)):
+                for p_, spx in table.items():
+                    if (c == p_) if isinstance(c, str) else (SymStr([c]) == p_):
+                        hit = spx
+                        break
+            if hit is not None and mode == "di_all":
+                prev = chars[o - 1] if o > 0 else None
+                nxt = chars[o + 1] if o + 1 < n else None
+                if prev is not None and ((prev in "<%:>=-+&|*/^!") if isinstance(prev, str) else core.contains("<%:>=-+&|*/^!", SymStr([prev]))):
+                    hit = None
+                elif nxt is not None and ((nxt in "<%:>") if isinstance(nxt, str) else core.contains("<%:>", SymStr([nxt]))):
+                    hit = None
+            if hit is None:
+                items.append(c)
+            else:
+                items += list(hit)
+                nrep += 1
+        if nrep >= 2:
+            try:
+                t2, f2 = lex(items)
+                if not same(tv(base), tv(t2)):
+                    out(f"C12:{mode}:tokens-differ:{nrep if nrep < 3 else 'many'}-sites", f"respelling every punctuator of the window ({mode}) changes the token sequence", items)
+            except Exception as e:
+                out(f"C12:{mode}:exception:{type(e).__name__}", f"{mode} makes the lexer raise {type(e).__name__}", items)
+            return dict(edits=1)
+        return dict(edits=0)
     for ti, o, t in sites:
         if mode.startswith("splice"):
             plain, tri = ["\\", "\n"], ["?", "?", "/", "\n"]
